@@ -12,7 +12,7 @@ independently of the encoder's and decoder's control flow:
   and `numBack` / equal in every known part (a `Covers`-style relation);
 * `Fits E t v` — the decidable hypotheses under which the round trip is proved:
   `v` is unmarked, capsule-free, well-formed, conforms to `t`, and avoids the
-  four classes of inputs on which the code as it exists does NOT round-trip
+  classes of inputs on which the code as it exists does NOT round-trip
   (see `Props/C16.lean`: counterexamples) or on which the model of the
   refinement builder answers `.unmodelled`.
 
@@ -38,31 +38,38 @@ def numBack (y x : Num) : Prop :=
 
 instance (y x : Num) : Decidable (numBack y x) := by unfold numBack; exact inferInstance
 
-/-- the decimal text of `x` parses back to an acceptable decoding of `x` -/
+/-- the shortest decimal text of a number that is NOT whole parses back to a number that is
+Equal to it in cty's sense (`rawNumberEqual`) -/
 def textBack (x : Num) : Bool :=
   match parseNumber (Num.textF x) with
-  | .ok y => if x.isInt then Num.cmp y x == 0 else Num.rawEqual y x
+  | .ok y => Num.rawEqual y x
   | _ => false
 
-/-- the decimal text of `x` parses back to exactly `x` (needed for bounds) -/
+/-- the shortest decimal text of `x` parses back to exactly `x` (needed for bounds) -/
 def textExact (x : Num) : Bool :=
   match parseNumber (Num.textF x) with
   | .ok y => Num.cmp y x == 0
   | _ => false
 
-/-- a known number whose encoding is proved to round-trip: every number that
-travels as an integer or float item, and those travelling as decimal text whose
-text parses back (math/big's shortest-text formatting is not reasoned about) -/
+/-- the mantissa of a whole number fits the 512 bits `cty.ParseNumberVal` parses at: every
+number cty itself produces (`ParseNumberVal`, `NumberIntVal`, `NumberFloatVal`, arithmetic);
+only a caller-made `big.Float` of a higher precision handed to `cty.NumberVal` can exceed it -/
+def wholeFits (x : Num) : Bool := decide (x.minPrec ≤ 512)
+
+/-- a known number whose encoding is proved to round-trip: every number that travels as an
+integer or float item, every whole number beyond int64 (all of its digits are written since
+/repo 986ad55) as long as its mantissa fits 512 bits, and the other numbers travelling as
+decimal text whose text parses back (math/big's shortest-text formatting is not reasoned about) -/
 def numFits (x : Num) : Bool :=
   match route x with
-  | .str _ => textBack x
+  | .str _ => if x.isInt then wholeFits x else textBack x
   | _ => true
 
 def boundFits : Option Bound → Bool
   | none => true
   | some b =>
     match route b.v with
-    | .str _ => textExact b.v
+    | .str _ => if b.v.isInt then wholeFits b.v else textExact b.v
     | _ => true
 
 /-- precision of the number the decoder builds for each encoding -/
@@ -209,8 +216,9 @@ def tyNamesFixedL (norm : String → String) : List Ty → Bool
   | t :: ts => tyNamesFixed norm t && tyNamesFixedL norm ts
 end
 
-/-- a type that survives the dynamic wrapper (C07: type JSON round trip) -/
-def goodTy (E : Ext) (t : Ty) : Bool := t.wf && !t.hasCapsule && tyNamesFixed E.norm t
+/-- a type that survives the dynamic wrapper (C07: type JSON round trip; the decoder takes
+optional-attribute annotations off the described type, and the type of a value has none) -/
+def goodTy (E : Ext) (t : Ty) : Bool := t.wf && !t.hasCapsule && !t.hasOpt && tyNamesFixed E.norm t
 
 def keysOK (E : Ext) (ks : List String) : Bool := Ty.strictAsc ks && ks.all fun k => E.norm k == k
 
@@ -255,10 +263,13 @@ def fitsZip (E : Ext) : List Ty → List Ty → List Payload → Bool
   | _, _, _ => false
 end
 
-/-- the hypotheses of the round-trip theorems, for a value `v` and a constraint `t` -/
+/-- the hypotheses of the round-trip theorems, for a value `v` and a constraint `t`.  The
+constraint may carry optional-attribute annotations: `Marshal` does not look at them and
+`Unmarshal` takes them off (`Ty.stripOpt`, /repo afdc0a2), so what the decoder's types are
+compared with is `t.stripOpt`. -/
 def Fits (E : Ext) (t : Ty) (v : Value) : Bool :=
   t.wf && v.ty.wf &&
-  (if t.isDyn && !v.ty.isDyn then goodTy E v.ty && fitsP E v.ty v.ty v.v else fitsP E t v.ty v.v)
+  (if t.isDyn && !v.ty.isDyn then goodTy E v.ty && fitsP E v.ty v.ty v.v else fitsP E t.stripOpt v.ty v.v)
 
 /-! ## The full-strength hypotheses
 
